@@ -173,6 +173,12 @@ func readString(r io.Reader) (string, error) {
 		return "", err
 	}
 
+	// A length prefix that exceeds the remaining input is a corrupt record:
+	// reject it before allocating (the prefix can claim up to 4 GiB)
+	if err := checkRemaining(r, length); err != nil {
+		return "", err
+	}
+
 	// Read string data
 	data := make([]byte, length)
 	if _, err := io.ReadFull(r, data); err != nil {
@@ -180,6 +186,15 @@ func readString(r io.Reader) (string, error) {
 	}
 
 	return string(data), nil
+}
+
+// checkRemaining validates a length prefix against what is left of the input
+// when the reader can tell (bytes.Reader and bytes.Buffer can)
+func checkRemaining(r io.Reader, length uint32) error {
+	if lr, ok := r.(interface{ Len() int }); ok && uint64(length) > uint64(lr.Len()) {
+		return fmt.Errorf("length prefix %d exceeds the remaining %d bytes", length, lr.Len())
+	}
+	return nil
 }
 
 // SerializeCompiledTemplate serializes a compiled template to a byte array
@@ -287,6 +302,10 @@ func deserializeBinaryFormat(data []byte) (*CompiledTemplate, error) {
 	var astLength uint32
 	if err := binary.Read(r, binary.LittleEndian, &astLength); err != nil {
 		return nil, fmt.Errorf("failed to read AST length: %w", err)
+	}
+
+	if err := checkRemaining(r, astLength); err != nil {
+		return nil, fmt.Errorf("failed to read AST data: %w", err)
 	}
 
 	compiled.AST = make([]byte, astLength)
